@@ -489,6 +489,19 @@ _T = [
      '<dtml-try><dtml-var "opt.upper()"><dtml-except NameError>NE</dtml-try>|<dtml-var "flag + 1">',
      '<dtml-try><dtml-if "other"><dtml-var other><dtml-else>empty</dtml-if><dtml-except>undefined</dtml-try>',
      ['opt', 'flag', 'other'], None, 0),
+    # renders that FAIL part-way through a loop (the 3rd, the 5th or no element, depending on the namespace): what
+    # an aborted rendering has already produced must not show up in the next one
+    ('in_fault_midway', 'HTML',
+     'A<dtml-in nums>[<dtml-var sequence-item>:<dtml-var "10 / (_[\'sequence-item\'] - 9)">]</dtml-in>B',
+     'A<dtml-in words>(<dtml-var sequence-item>)<dtml-if "_[\'sequence-item\'] == \'cherry\'"><dtml-raise ValueError>no cherries</dtml-raise></dtml-if></dtml-in>B'
+     '<dtml-in nums size=3>[<dtml-var sequence-item>:<dtml-var "10 / (_[\'sequence-item\'] - 7)">]</dtml-in>C',
+     ['nums', 'words'], None, 0),
+    ('in_fault_caught', 'HTML',
+     '<dtml-in maybe><dtml-try><dtml-in nums>[<dtml-var sequence-item>:<dtml-var "10 / (_[\'sequence-item\'] - 9)">]</dtml-in><dtml-except>!</dtml-try>;</dtml-in>'
+     '<dtml-in nums>(<dtml-var sequence-item>)</dtml-in>',
+     '<dtml-try><dtml-in seq mapping><dtml-var c>/<dtml-var "10 / (n - 2)">,</dtml-in><dtml-except ZeroDivisionError>div0</dtml-try>'
+     '|<dtml-in seq mapping><dtml-var c>.</dtml-in>',
+     ['nums', 'maybe', 'seq'], None, 0),
     ('guarded_expr_optional', 'GuardedHTML',
      '<dtml-var "x or other">|<dtml-if "z and opt">ZO<dtml-else>nzo</dtml-if>',
      '<dtml-let v="nul or opt"><dtml-var v missing=none null=nil></dtml-let>',
